@@ -128,17 +128,18 @@ section ok
 variable {os : List Obj} {f : PPath → PPath} {st : Stores} (cx : Ctx os)
 include cx
 
-theorem usersOK_of (h : st.users = (ideal os f).users) : UsersOK os st := by
+omit f in
+theorem usersOK_of (h : st.users = tbl (·.uuid) id (usersOf os)) : UsersOK os st := by
   intro u hu; rw [h]
   exact find_tbl (·.uuid) id cx.users (mem_usersOf.2 hu)
 
-omit cx in
-theorem tagsOK_of (h : st.tags = (ideal os f).tags) : TagsOK os st := by
+omit cx f in
+theorem tagsOK_of (h : st.tags = tagStore (tagTable os)) : TagsOK os st := by
   intro t ht; rw [h]
   have hm : t ∈ tagTable os := by
     have : CoherentBy id (tagsOf os) := fun x _ y _ h => h
     exact mem_dedupBy_of_coherent id this (mem_tagsOf.2 ht)
-  simpa [ideal, tagStore, tagId] using find_zipIdx (tagTable os) t hm 0
+  simpa [tagStore, tagId] using find_zipIdx (tagTable os) t hm 0
 
 theorem recsOK_of (h : st.recs = (ideal os f).recs) : RecsOK f os st := by
   intro x hx; rw [h]; exact find_tbl (·.uuid) _ cx.recs (mem_recsOf.2 hx)
